@@ -141,24 +141,33 @@ def _cleave(ctx, f):
     ol = outer[0]
     S_IDX, S_SITE = ("idx", SITES), ("elem", SITES)
 
-    def gap_range(t):
-        if t[0] == "call" and t[1] == "builtins.range" and len(t[2]) == 2 \
-                and t[2][0] == ("const", 1):
-            d = lin(t[2][1]) + lin(P[p_mc]).scale(-1)
-            return d.const == 2 and not d.atoms
-        return False
+    def gap_loop(n):
+        """Is ``n`` a loop over the end positions  start+1 .. start+mc+1 ?
+        Accepted: a range(lo, hi) with hi - lo == mc + 1 whose element e
+        gives the end index  e + c  (c may contain the start index) such
+        that the smallest end index is start + 1."""
+        t = T.of(n.iter)
+        if not (t[0] == "call" and t[1] == "builtins.range"
+                and len(t[2]) == 2):
+            return False
+        width = lin(t[2][1]) + lin(t[2][0]).scale(-1) + lin(
+            P[p_mc]).scale(-1)
+        return width.const == 1 and not width.atoms
 
     inner = [n for n in loops if inside(n, ol) and n is not ol
-             and gap_range(T.of(n.iter))]
+             and cfg.enclosing(n, (ast.For, ast.While)) is ol
+             and gap_loop(n)]
     ctx.check(len(inner) == 1, "C17b-gap-range", f,
               "site gaps 1 .. missed_cleavages + 1 are tried",
               "gap loops: " + str([ast.unparse(n.iter) for n in loops
                                    if inside(n, ol) and n is not ol])
-              + f" (expected range(1, {p_mc} + 2))", node=ol)
+              + f" (expected a range of {p_mc} + 1 consecutive end "
+              "positions)", node=ol)
     if len(inner) != 1:
         return
     il = inner[0]
     GAP = ("elem", T.of(il.iter))
+    GAP_LO = T.of(il.iter)[2][0]
     # everything added to the result
     rets = [t for _r, t in T.returns()]
     ok = len(rets) == 1 and rets[0][0] == "var"
@@ -211,9 +220,11 @@ def _cleave(ctx, f):
     if PEP is not None and PEP[2][0] == "slice":
         lo, hi, st = PEP[2][1:]
         if hi[0] == "sub" and hi[1] == SITES:
-            d = lin(hi[2]) + lin(S_IDX).scale(-1) + lin(GAP).scale(-1)
+            # end index = gap element + c, smallest value start index + 1
+            d = lin(hi[2]) + lin(GAP).scale(-1) + lin(GAP_LO) + lin(
+                S_IDX).scale(-1)
             ok_pep = lo == S_SITE and st == ("const", None) and \
-                d.const == 0 and not d.atoms
+                d.const == 1 and not d.atoms
             END_IDX = hi[2]
         why = f"the enzymatic peptide is {show(PEP, 160)}"
     ctx.check(ok_pep, "C17a-peptide-is-site-to-site-slice", f,
